@@ -425,6 +425,57 @@ func runC05(e *core.Env, n int) {
 		run.Cancel()
 	})
 
+	// over HTTP: the sender is blocked in SendMsg (the handler is not reading and more than the transport buffers
+	// has been sent) and the receiver is blocked in RecvMsg when the caller's context ends: both return
+	e.Cases("http-cancel-with-blocked-send-and-recv", e.N(10, 60), func(i int, r *rand.Rand) {
+		c := carriers[1]
+		sc := &Script{Kind: Bidi}
+		for k := 0; k < 8; k++ {
+			sc.Sender = append(sc.Sender, Op{Op: "send", Msg: &tpb.Message{Payload: make([]byte, 512<<10), Count: int32(k)}})
+		}
+		sc.Receiver = []Op{{Op: "recv"}, {Op: "recv"}}
+		sc.Handler = []Op{{Op: "gatectx", Gate: "hold"}}
+		run := c.Svc.NewRun(sc, c.Name)
+		defer c.Svc.Forget(run)
+		done := make(chan struct{})
+		go func() {
+			run.Exec(c.CC, nil, 120*time.Second)
+			close(done)
+		}()
+		// both client goroutines parked (the event log has gone quiet with a send and a receive outstanding)
+		last, quiet := -1, 0
+		for k := 0; k < 2000 && quiet < 10; k++ {
+			time.Sleep(2 * time.Millisecond)
+			if n := len(run.Events()); n == last {
+				quiet++
+			} else {
+				last, quiet = n, 0
+			}
+		}
+		time.Sleep(time.Duration(r.Intn(3)) * time.Millisecond)
+		run.rec(Event{Who: "x", Op: "cancel"})
+		run.Cancel()
+		// (the client's operations are what must return; the handler, which does not read its request, learns
+		// of the caller's end only when the connection goes away and is released by hand afterwards)
+		fin, stuck, dump := waitDoneOrStuck(run.ClientDone, 60*time.Second)
+		e.Eval(c.Name+"|cancel-with-blocked-send-and-recv", true)
+		run.ReleaseAll()
+		if !fin {
+			if stuck {
+				e.Violate(c.Name+"/bidi/deadlock-after-cancel/blocked-send-and-recv", "the context ended while one goroutine was blocked in SendMsg and another in RecvMsg; they did not return: "+parkedSummary(dump), map[string]any{"events": run.Events(), "goroutines": trunc(dump, 20000)})
+			} else {
+				e.Inconclusive("C05 http-cancel-with-blocked-send-and-recv: watchdog without a stable park")
+			}
+			forceEnd(run, done)
+			return
+		}
+		select {
+		case <-done:
+		case <-time.After(20 * time.Second):
+		}
+	})
+	checkLeaks(e, "after calls cancelled with a send and a receive outstanding")
+
 	// a send that the client side itself rejects (the message cannot be encoded), then CloseSend and a receive: the
 	// half-close still ends the request stream, so the handler (which consumes it and answers) and the client finish
 	// on their own - nothing has to be cancelled
